@@ -20,24 +20,58 @@ Proof. intros. rewrite app_length, repeat_length. reflexivity. Qed.
 Lemma repeat_snoc : forall (x : N) k, repeat x k ++ [x] = repeat x (S k).
 Proof. induction k as [|k IH]; cbn; [reflexivity|]. f_equal. exact IH. Qed.
 
-(* appending underscores keeps a nickname a nickname (IsValidNick has no length limit) *)
-Lemma nick_rest_ok_underscore : nick_rest_ok underscore = true.
-Proof. reflexivity. Qed.
-
-Lemma valid_nick_app_underscore : forall n, is_valid_nick n = true -> is_valid_nick (n ++ [underscore]) = true.
+(* appending underscores keeps a nickname a nickname *)
+Lemma memb_app : forall c a b, memb c (a ++ b) = memb c a || memb c b.
 Proof.
-  intros [|c r] H; [discriminate|]. cbn [app is_valid_nick] in *.
-  apply andb_true_iff in H. destruct H as [H1 H2]. rewrite H1. cbn [andb].
-  rewrite forallb_app, H2. reflexivity.
+  induction a as [|x a IH]; intro b; cbn [app memb]; [reflexivity|].
+  rewrite IH, orb_assoc. reflexivity.
 Qed.
 
-Lemma valid_nick_app_underscores : forall k n, is_valid_nick n = true -> is_valid_nick (n ++ repeat underscore k) = true.
+Lemma nick_like_app_underscore : forall n, nick_like n = true -> nick_like (n ++ [underscore]) = true.
+Proof.
+  intros [|c r] H; [discriminate|]. unfold nick_like in *. cbn [app] in *.
+  apply andb_true_iff in H. destruct H as [H1 H2]. rewrite H1. cbn [andb].
+  change (c :: r ++ [underscore]) with ((c :: r) ++ [underscore]). rewrite !memb_app.
+  apply negb_true_iff in H2. apply orb_false_iff in H2. destruct H2 as [H32 H44].
+  rewrite H32, H44. reflexivity.
+Qed.
+
+Lemma nick_like_app_underscores : forall k n, nick_like n = true -> nick_like (n ++ repeat underscore k) = true.
 Proof.
   induction k as [|k IH]; intros n H; cbn [repeat].
   - rewrite app_nil_r. exact H.
   - replace (n ++ underscore :: repeat underscore k) with ((n ++ [underscore]) ++ repeat underscore k)
       by (rewrite <- app_assoc; reflexivity).
-    apply IH. apply valid_nick_app_underscore. exact H.
+    apply IH. apply nick_like_app_underscore. exact H.
+Qed.
+
+Lemma nick_like_named : forall n, nick_like n = true -> collision_named n = true.
+Proof.
+  intros [|c r] H; [discriminate|]. unfold nick_like in H. unfold collision_named.
+  apply andb_true_iff in H. destruct H as [H1 H2]. rewrite H2. cbn [andb].
+  unfold is_valid_channel.
+  destruct (Nat.leb (length (c :: r)) 1 || Nat.ltb 50 (length (c :: r)))%bool; [reflexivity|].
+  rewrite H1. reflexivity.
+Qed.
+
+Lemma nick_rest_no_sep : forall r, forallb nick_rest_ok r = true -> memb 32 r = false /\ memb 44 r = false.
+Proof.
+  induction r as [|b r IH]; intro H; [split; reflexivity|].
+  cbn [forallb] in H. apply andb_true_iff in H. destruct H as [Hb Hr]. destruct (IH Hr) as [I1 I2].
+  cbn [memb]. rewrite I1, I2, !orb_false_r.
+  split; apply N.eqb_neq; intro E; subst b; discriminate.
+Qed.
+
+Lemma valid_nick_is_nick_like : forall n, is_valid_nick n = true -> nick_like n = true.
+Proof.
+  intros [|c r] H; [discriminate|]. cbn [is_valid_nick] in H.
+  apply andb_true_iff in H. destruct H as [Hc Hr]. destruct (nick_rest_no_sep r Hr) as [H32 H44].
+  unfold nick_like, chan_prefixes. cbn [memb]. rewrite H32, H44, !orb_false_r.
+  repeat match goal with
+         | |- context [N.eqb c ?k] => destruct (N.eqb_spec c k) as [E|_]; [subst c; discriminate|]
+         | |- context [N.eqb ?k c] => destruct (N.eqb_spec k c) as [E|_]; [subst c; discriminate|]
+         end.
+  reflexivity.
 Qed.
 
 (* ---- PING ---------------------------------------------------------------- *)
@@ -69,41 +103,41 @@ Proof. reflexivity. Qed.
 
 (* ---- one collision numeric ------------------------------------------------ *)
 
-Lemma get_nick_tracking : forall cfg st, pc_tracking cfg = true -> get_nick cfg st = Ok (current_nick cfg st).
-Proof. intros cfg st H. unfold get_nick. rewrite H. reflexivity. Qed.
+Lemma own_nick_current : forall cfg st, own_nick cfg st = current_nick cfg st.
+Proof. reflexivity. Qed.
 
 Lemma collision_callback : forall cfg st params f,
-  pc_tracking cfg = true -> pc_collide cfg = Some f ->
+  pc_collide cfg = Some f ->
   nick_collision cfg st params =
     Ok (match f (current_nick cfg st) with [] => [] | n => [cmd_nick n] end).
 Proof.
-  intros cfg st params f Ht Hf. unfold nick_collision. rewrite Hf, (get_nick_tracking _ _ Ht). cbn [rbind].
+  intros cfg st params f Hf. unfold nick_collision. rewrite Hf, own_nick_current.
   destruct (f (current_nick cfg st)); reflexivity.
 Qed.
 
 Lemma collision_default : forall cfg st params,
-  pc_tracking cfg = true -> pc_collide cfg = None ->
+  pc_collide cfg = None ->
   nick_collision cfg st params = Ok [cmd_nick (collision_base (current_nick cfg st) params ++ [underscore])].
 Proof.
-  intros cfg st params Ht Hf. unfold nick_collision. rewrite Hf, (get_nick_tracking _ _ Ht). reflexivity.
+  intros cfg st params Hf. unfold nick_collision. rewrite Hf. reflexivity.
 Qed.
 
 Lemma collision_base_echo : forall cur target rejected rest,
-  is_valid_nick rejected = true -> collision_base cur (target :: rejected :: rest) = rejected.
-Proof. intros cur target rejected rest H. cbn. rewrite H. reflexivity. Qed.
+  nick_like rejected = true -> collision_base cur (target :: rejected :: rest) = rejected.
+Proof. intros cur target rejected rest H. cbn. rewrite (nick_like_named _ H). reflexivity. Qed.
 
 (* Whatever the numeric looks like: exactly one NICK, built on the nickname it names or on the
    current one, and never the nickname it names. *)
 Lemma collision_default_any : forall cfg st params,
-  pc_tracking cfg = true -> pc_collide cfg = None ->
+  pc_collide cfg = None ->
   exists b, nick_collision cfg st params = Ok [cmd_nick (b ++ [underscore])] /\
-            ((exists t r, params = t :: b :: r /\ is_valid_nick b = true) \/ b = current_nick cfg st) /\
-            (forall t p r, params = t :: p :: r -> is_valid_nick p = true -> b ++ [underscore] <> p).
+            ((exists t r, params = t :: b :: r /\ collision_named b = true) \/ b = current_nick cfg st) /\
+            (forall t p r, params = t :: p :: r -> collision_named p = true -> b ++ [underscore] <> p).
 Proof.
-  intros cfg st params Ht Hf. rewrite (collision_default _ _ _ Ht Hf).
+  intros cfg st params Hf. rewrite (collision_default _ _ _ Hf).
   exists (collision_base (current_nick cfg st) params). split; [reflexivity|]. split.
   - destruct params as [|t [|p r]]; cbn; try (right; reflexivity).
-    destruct (is_valid_nick p) eqn:Hp; [left; eauto | right; reflexivity].
+    destruct (collision_named p) eqn:Hp; [left; eauto | right; reflexivity].
   - intros t p r -> Hp. cbn. rewrite Hp. intro E.
     apply (f_equal (@length N)) in E. rewrite app_length in E. cbn in E. lia.
 Qed.
@@ -157,25 +191,25 @@ Proof. reflexivity. Qed.
    nickname) and whatever else arrives in between, the NICK lines it writes are exactly
    those of the machine above. *)
 Lemma session_default : forall cfg items st req,
-  pc_tracking cfg = true -> pc_collide cfg = None ->
-  is_valid_nick req = true -> well_formed items ->
+  pc_collide cfg = None ->
+  nick_like req = true -> well_formed items ->
   exists outs, session cfg st req items = Ok outs /\
                List.map (filter is_nick_out) outs = expected_nicks req items.
 Proof.
-  intros cfg items. induction items as [|it r IH]; intros st req Ht Hf Hreq Hwf.
+  intros cfg items. induction items as [|it r IH]; intros st req Hf Hreq Hwf.
   - exists []. split; reflexivity.
   - destruct it as [s|e|x]; cbn [well_formed] in Hwf; destruct Hwf as [H1 Hwf]; cbn [session expected_nicks].
     + assert (Hc : is_collision_cmd (e_cmd (numeric_of s req)) = true) by exact H1.
       rewrite (step_collision _ _ _ Hc). cbn [numeric_of e_params].
-      rewrite (collision_default _ _ _ Ht Hf), (collision_base_echo _ _ _ _ Hreq). cbn [rbind fst snd].
+      rewrite (collision_default _ _ _ Hf), (collision_base_echo _ _ _ _ Hreq). cbn [rbind fst snd].
       rewrite next_req_nick.
-      destruct (IH st (req ++ [underscore]) Ht Hf (valid_nick_app_underscore _ Hreq) Hwf) as [outs [Hs Hm]].
+      destruct (IH st (req ++ [underscore]) Hf (nick_like_app_underscore _ Hreq) Hwf) as [outs [Hs Hm]].
       rewrite Hs. cbn [rbind]. eexists. split; [reflexivity|]. cbn [List.map]. rewrite Hm. reflexivity.
     + destruct (step_other_no_nick cfg st e H1) as [st' [o [Hs [Hn Hr]]]].
       rewrite Hs. cbn [rbind fst snd]. rewrite Hr.
-      destruct (IH st' req Ht Hf Hreq Hwf) as [outs [Hs' Hm]].
+      destruct (IH st' req Hf Hreq Hwf) as [outs [Hs' Hm]].
       rewrite Hs'. cbn [rbind]. eexists. split; [reflexivity|]. cbn [List.map]. rewrite Hn, Hm. reflexivity.
-    + destruct (IH st x Ht Hf H1 Hwf) as [outs [Hs' Hm]].
+    + destruct (IH st x Hf H1 Hwf) as [outs [Hs' Hm]].
       rewrite Hs'. cbn [rbind]. eexists. split; [reflexivity|]. cbn [List.map]. rewrite Hm. reflexivity.
 Qed.
 
@@ -193,13 +227,13 @@ Proof.
 Qed.
 
 Lemma session_default_run : forall cfg items st base,
-  pc_tracking cfg = true -> pc_collide cfg = None ->
-  is_valid_nick base = true -> well_formed items -> no_user items ->
+  pc_collide cfg = None ->
+  nick_like base = true -> well_formed items -> no_user items ->
   exists outs, session cfg st base items = Ok outs /\
                List.map (filter is_nick_out) outs = expected_run base 0 items.
 Proof.
-  intros cfg items st base Ht Hf Hb Hwf Hn.
-  destruct (session_default cfg items st base Ht Hf Hb Hwf) as [outs [Hs Hm]].
+  intros cfg items st base Hf Hb Hwf Hn.
+  destruct (session_default cfg items st base Hf Hb Hwf) as [outs [Hs Hm]].
   exists outs. split; [exact Hs|]. rewrite Hm.
   rewrite <- (expected_nicks_run items base 0 Hn). cbn [repeat]. rewrite app_nil_r. reflexivity.
 Qed.
@@ -255,7 +289,7 @@ Definition ex_items : list item :=
    IEvent (mkEvent s_001 None [bs "me__"; bs "Welcome"]); ICollide ex_shell].
 
 Example ex_session :
-  pc_tracking ex_cfg = true /\ pc_collide ex_cfg = None /\ is_valid_nick (bs "me") = true /\
+  pc_collide ex_cfg = None /\ nick_like (bs "me") = true /\
   well_formed ex_items /\ no_user ex_items /\
   session ex_cfg pn_init (bs "me") ex_items =
     Ok [[cmd_nick (bs "me_")]; [cmd_pong (bs "tok en")]; [cmd_nick (bs "me__")]; []; [cmd_nick (bs "me___")]].
@@ -268,38 +302,34 @@ Example ex_callback :
   nick_collision (mkPnCfg (bs "me") true (Some (fun _ => []))) pn_init [bs "*"; bs "me"] = Ok [].
 Proof. vm_compute. repeat split; reflexivity. Qed.
 
-(* ---- what is NOT covered (the model of the code as it is) ------------------- *)
+(* ---- the two sequences the unrepaired handler got wrong ------------------------- *)
 
-(* tracking disabled: the handler panics in GetNick and asks for nothing *)
-Lemma collision_notracking_panics : forall nick f st params,
-  nick_collision (mkPnCfg nick false f) st params = Panic.
-Proof. intros nick [f|] st params; reflexivity. Qed.
+(* tracking disabled: the handler answers all the same *)
+Example collision_without_tracking :
+  session (mkPnCfg (bs "me") false None) pn_init (bs "me") [ICollide ex_shell; ICollide ex_shell] =
+    Ok [[cmd_nick (bs "me_")]; [cmd_nick (bs "me__")]].
+Proof. vm_compute. reflexivity. Qed.
 
-(* a refused nickname that IsValidNick does not accept (e.g. non-ASCII) is ignored, and the
-   proposal is built on the current nickname again: the same proposal twice *)
-Lemma collision_invalid_repeats :
-  exists cfg st req,
-    pc_tracking cfg = true /\ pc_collide cfg = None /\
-    session cfg st req [ICollide ex_shell; ICollide ex_shell] =
-      Ok [[cmd_nick [195; 188; 95]]; [cmd_nick [195; 188; 95]]].
-Proof.
-  exists (mkPnCfg (bs "me") true None), [195; 188], [195; 169].
-  vm_compute. repeat split; reflexivity.
-Qed.
+(* non-ASCII nicknames: current nickname "\xc3\xbc", the application asks for "\xc3\xa9" *)
+Example collision_non_ascii :
+  nick_like [195; 169] = true /\
+  session (mkPnCfg (bs "me") true None) [195; 188] [195; 169] [ICollide ex_shell; ICollide ex_shell] =
+    Ok [[cmd_nick [195; 169; 95]]; [cmd_nick [195; 169; 95; 95]]].
+Proof. vm_compute. split; reflexivity. Qed.
 
 (* ---- the statements of Properties/C17.v ------------------------------------- *)
 
 Lemma collision_default_run_full : forall cfg items st base,
-  pc_tracking cfg = true -> pc_collide cfg = None ->
-  is_valid_nick base = true -> well_formed items -> no_user items ->
+  pc_collide cfg = None ->
+  nick_like base = true -> well_formed items -> no_user items ->
   exists outs,
     session cfg st base items = Ok outs /\
     List.map (filter is_nick_out) outs = expected_run base 0 items /\
     concat (expected_run base 0 items) = List.map cmd_nick (proposals base 0 items) /\
     NoDup (base :: proposals base 0 items).
 Proof.
-  intros cfg items st base Ht Hf Hb Hwf Hn.
-  destruct (session_default_run cfg items st base Ht Hf Hb Hwf Hn) as [outs [Hs Hm]].
+  intros cfg items st base Hf Hb Hwf Hn.
+  destruct (session_default_run cfg items st base Hf Hb Hwf Hn) as [outs [Hs Hm]].
   exists outs. repeat split; [exact Hs | exact Hm | apply expected_run_proposals | apply proposals_fresh].
 Qed.
 
@@ -315,11 +345,11 @@ Proof.
 Qed.
 
 Lemma step_collision_callback : forall cfg st e f,
-  pc_tracking cfg = true -> pc_collide cfg = Some f -> is_collision_cmd (e_cmd e) = true ->
+  pc_collide cfg = Some f -> is_collision_cmd (e_cmd e) = true ->
   pn_step cfg st e =
     Ok (st, match f (current_nick cfg st) with [] => [] | n => [cmd_nick n] end).
 Proof.
-  intros cfg st e f Ht Hf Hc. rewrite (step_collision _ _ _ Hc), (collision_callback _ _ _ _ Ht Hf). reflexivity.
+  intros cfg st e f Hf Hc. rewrite (step_collision _ _ _ Hc), (collision_callback _ _ _ _ Hf). reflexivity.
 Qed.
 
 (* The handler answers from (state.nick, the numeric) alone and leaves state.nick as it is:
